@@ -24,7 +24,18 @@ theorem C07_closed_unionMembers {sd : SchemaDoc} {s : Schema} (h : load sd = .ok
   obtain ⟨t, ht, hk⟩ := (F.defOK _ hd).members m hm'
   exact typeIs_mkSchema ht (by simp [hk])
 
-/-- in particular: no nil entry in `PossibleTypes` -/
+/-- **no nil entry is ever stored** in `PossibleTypes` or `Implements`: in the state every validator
+    runs in, whatever the document (also one that is later rejected) — the repaired loader skips
+    undeclared union members and interfaces -/
+theorem C07_relations_no_nil {sd : SchemaDoc} {st : LState} (h : buildState sd = .ok st) :
+    (∀ p ∈ st.possible, ∀ e ∈ p.2, e ≠ none) ∧ (∀ p ∈ st.implements, ∀ e ∈ p.2, e ≠ none) := by
+  have hrel := (buildState_inv h).2.2
+  have h1 : st.possible = (buildRelations st.types).1 := congrArg Prod.fst hrel
+  have h2 : st.implements = (buildRelations st.types).2 := congrArg Prod.snd hrel
+  rw [h1, h2]
+  exact buildRelations_noNil st.types
+
+/-- keys and entries of `PossibleTypes` resolve; in particular no nil entry -/
 theorem C07_closed_possibleTypes {sd : SchemaDoc} {s : Schema} (h : load sd = .ok s) : Spec.ClosedPossibleTypes s := by
   obtain ⟨st, r1, d1, F⟩ := loaded_facts h
   rw [F.eq]
@@ -185,34 +196,33 @@ theorem C07_loaded_closed {sd : SchemaDoc} {s : Schema} (h : load sd = .ok s)
 
 /- ------------------------------------------------------------------ never panics -/
 
-/-
-  Full statement (FALSE for the code as it is):
+/-- **C07_load_no_panic**: the loader never panics, whatever the document.  (Before the repair
+    `schema.go` stored `schema.Types[t]` — nil for an undeclared union member — in `PossibleTypes` and
+    `isCovariant` dereferenced it; the theorem needed the hypothesis `MembersDeclared`.) -/
+theorem C07_load_no_panic (sd : SchemaDoc) : (load sd).isPanic = false := load_ne_panic sd
 
-    theorem C07_load_no_panic (sd : SchemaDoc) : (load sd).isPanic = false
+/-- the former panic witness `interface I { f: U }  type A implements I { f: A }  union U = X` now
+    returns an error (kernel-checked) -/
+theorem C07_load_former_panic_witness_rejected : ∃ e, load Examples.panicDoc = .err e := by
+  cases h : load Examples.panicDoc with
+  | err e => exact ⟨e, rfl⟩
+  | ok s => have : (load Examples.panicDoc).isOk = false := by decide
+            rw [h] at this; simp [LoadResult.isOk] at this
+  | panic => have : (load Examples.panicDoc).isPanic = false := by decide
+             rw [h] at this; simp [LoadResult.isPanic] at this
 
-  `schema.go:65` stores `schema.Types[t]` — nil for an undeclared union member — in `PossibleTypes`,
-  and `isCovariant` (`schema.go:499`) dereferences the entries while an implementer that sorts before the
-  union is being validated.  Witness below; the provable form excludes exactly that situation.
--/
-
-/-- `interface I { f: U }  type A implements I { f: A }  union U = X` panics (kernel-checked) -/
-theorem C07_load_no_panic_counterexample : ∃ sd, (load sd).isPanic = true :=
-  ⟨Examples.panicDoc, by decide⟩
-
-/-- the loader never panics when every union member named in the document is declared -/
-theorem C07_load_no_panic_partial {sd : SchemaDoc} (hm : MembersDeclared sd) : (load sd).isPanic = false :=
-  load_ne_panic_of_state (fun _ hst => noNil_of_membersDeclared hm hst)
-
-/-- … and, in general, whenever no nil entry was stored in `PossibleTypes` -/
+/-- … and, in general, whenever no nil entry was stored in `PossibleTypes` (kept: still true, now
+    with a hypothesis that always holds) -/
 theorem C07_load_no_panic_of_noNil {sd : SchemaDoc} (h : ∀ st, buildState sd = .ok st → NoNilPossible st) :
     (load sd).isPanic = false :=
   load_ne_panic_of_state h
 
-/-- whether the panic happens depends on the ORDER of the union's members: `union U = A | X` is
-    rejected with an error, `union U = X` / `union U = X | A` panic -/
-example : (load Examples.noPanicDoc).isPanic = false ∧ (load Examples.noPanicDoc).isOk = false := by decide
+/-- the order of a union's members no longer matters for the kind of outcome: `union U = A | X` and
+    `union U = X` are both rejected with an error -/
+example : (load Examples.noPanicDoc).isPanic = false ∧ (load Examples.noPanicDoc).isOk = false ∧
+    (load Examples.panicDoc).isPanic = false ∧ (load Examples.panicDoc).isOk = false := by decide
 
-/-- non-vacuity: a document satisfying all hypotheses that loads -/
+/-- non-vacuity: a document that loads -/
 example : (load Examples.okDoc).isOk = true := by decide
 
 /- ------------------------------------------------------------------ the input-object query root -/
@@ -230,12 +240,11 @@ theorem C07_closed_fieldTypes_counterexample :
 /- ------------------------------------------------------------------ relations are exact -/
 
 /-- `PossibleTypes` of an interface is exactly the set of object / interface types declaring it, and of
-    a union exactly its member list.  (`InputObjectsPlain`: input objects declare no interfaces — a
-    guarantee of the grammar.) -/
-theorem C07_relations_possible_abstract {sd : SchemaDoc} {s : Schema} (h : load sd = .ok s)
-    (hplain : InputObjectsPlain s) : Spec.possibleAbstractExact s = true := by
+    a union exactly its member list.  (The former hypothesis `InputObjectsPlain` is gone: input objects
+    no longer contribute to the relations.) -/
+theorem C07_relations_possible_abstract {sd : SchemaDoc} {s : Schema} (h : load sd = .ok s) :
+    Spec.possibleAbstractExact s = true := by
   obtain ⟨st, r1, d1, F⟩ := loaded_facts h
-  have hpl := inputPlain_state F.typesInv.1 (F.eq ▸ hplain)
   rw [F.eq]
   simp only [Spec.possibleAbstractExact, List.all_eq_true]
   intro p' hp'
@@ -250,7 +259,7 @@ theorem C07_relations_possible_abstract {sd : SchemaDoc} {s : Schema} (h : load 
     simp only [Spec.impliedPossible, hl, finalDef_kind, hk]
     have := mem_final_filter (sd := sd) (st := st) (r1 := r1) (d1 := d1) F.typesInv.1
       (fun k i _ => (k == .object || k == .interface) && i.contains p.1) x
-    exact (possibleInterface_exact F hpl hp hk x).trans this.symm
+    exact (possibleInterface_exact F hp hk x).trans this.symm
   · by_cases hu : p.2.kind = .union
     · simp only [hu, BEq.rfl, Bool.or_true, Bool.not_true, Bool.false_or]
       rw [sameSet_iff]
@@ -276,12 +285,29 @@ theorem C07_relations_possible_object {sd : SchemaDoc} {s : Schema} (h : load sd
     rw [possibleObject_exact F hp hk x]; simp
   · simp [hk]
 
+/-- only object, interface and union types have possible types (formerly refuted: every input
+    object used to be entered as its own possible type) -/
+theorem C07_relations_possible_keys {sd : SchemaDoc} {s : Schema} (h : load sd = .ok s) :
+    Spec.possibleNoOtherKeys s = true := by
+  obtain ⟨st, r1, d1, F⟩ := loaded_facts h
+  rw [F.eq]
+  simp only [Spec.possibleNoOtherKeys, List.all_eq_true, Bool.or_eq_true]
+  intro p hp
+  right
+  have hp' : p ∈ relOut st.possible := hp
+  simp only [relOut, List.mem_map] at hp'
+  obtain ⟨⟨k, vs⟩, hq, rfl⟩ := hp'
+  obtain ⟨d, hl, hk⟩ := possible_keys_kind F hq
+  have hfin := lookup_final (sd := sd) (r1 := r1) (d1 := d1) hl
+  simp only at hfin
+  simp only [Spec.kindOf, hfin, Option.map, finalDef_kind]
+  rcases hk with hk | hk | hk <;> simp [hk]
+
 /-- `Implements` of a type is exactly: the interfaces it declares and the unions listing it -/
-theorem C07_relations_implements {sd : SchemaDoc} {s : Schema} (h : load sd = .ok s)
-    (hplain : InputObjectsPlain s) : Spec.implementsExact s = true := by
+theorem C07_relations_implements {sd : SchemaDoc} {s : Schema} (h : load sd = .ok s) :
+    Spec.implementsExact s = true := by
   have hclosed := C07_closed_implements h
   obtain ⟨st, r1, d1, F⟩ := loaded_facts h
-  have hpl := inputPlain_state F.typesInv.1 (F.eq ▸ hplain)
   rw [F.eq] at hclosed ⊢
   simp only [Spec.implementsExact, Bool.and_eq_true, List.all_eq_true]
   refine ⟨?_, ?_⟩
@@ -294,7 +320,7 @@ theorem C07_relations_implements {sd : SchemaDoc} {s : Schema} (h : load sd = .o
     simp only [Spec.impliedImplements, hl, finalDef_kind, finalDef_interfaces, List.mem_append]
     have := mem_final_filter (sd := sd) (st := st) (r1 := r1) (d1 := d1) F.typesInv.1
       (fun k _ t => k == .union && t.contains p.1) x
-    rw [implements_exact F hpl hp x]
+    rw [implements_exact F hp x]
     apply or_congr
     · by_cases hk : p.2.kind = .object ∨ p.2.kind = .interface
       · have : (p.2.kind == DefKind.object || p.2.kind == DefKind.interface) = true := by
@@ -312,23 +338,27 @@ theorem C07_relations_implements {sd : SchemaDoc} {s : Schema} (h : load sd = .o
     | none => rw [hl] at this; simp at this
     | some d => simp
 
-/-- **C07_relations_exact (partial)**: three of the four clauses of `RelationsExact` -/
-theorem C07_relations_exact_partial {sd : SchemaDoc} {s : Schema} (h : load sd = .ok s) (hplain : InputObjectsPlain s) :
+/-- three of the four clauses of `RelationsExact` (kept; the hypothesis `InputObjectsPlain` is gone) -/
+theorem C07_relations_exact_partial {sd : SchemaDoc} {s : Schema} (h : load sd = .ok s) :
     Spec.possibleAbstractExact s = true ∧ Spec.possibleObjectSelf s = true ∧ Spec.implementsExact s = true :=
-  ⟨C07_relations_possible_abstract h hplain, C07_relations_possible_object h, C07_relations_implements h hplain⟩
+  ⟨C07_relations_possible_abstract h, C07_relations_possible_object h, C07_relations_implements h⟩
 
-/-
-  Full statement (FALSE for the code as it is):
-    theorem C07_relations_exact : load sd = .ok s → InputObjectsPlain s → Spec.RelationsExact s
-  The fourth clause, `possibleNoOtherKeys` (only object, interface and union types have possible types),
-  fails: `schema.go:68` `case InputObject, Object:` also registers every input object as its own possible type.
--/
-theorem C07_relations_exact_counterexample :
-    ∃ sd s, load sd = .ok s ∧ InputObjectsPlain s ∧ ¬ Spec.RelationsExact s := by
-  refine ⟨Examples.inputQueryDoc, mkSchema Examples.inputQueryDoc
-    (match buildState Examples.inputQueryDoc with | .ok st => st | .error _ => default) noRoots [], rfl, ?_, ?_⟩
-  · unfold InputObjectsPlain; decide
-  · intro h; exact absurd h.possibleNoOtherKeys (by decide)
+/-- **C07_relations_exact**: the possible-type and implements relations of every loaded schema are
+    exactly the ones implied by the definitions (all four clauses, no hypothesis).  Before the repair
+    the fourth clause failed: `case InputObject, Object:` registered input objects as possible types. -/
+theorem C07_relations_exact {sd : SchemaDoc} {s : Schema} (h : load sd = .ok s) : Spec.RelationsExact s :=
+  { possibleAbstractExact := C07_relations_possible_abstract h, possibleObjectSelf := C07_relations_possible_object h,
+    possibleNoOtherKeys := C07_relations_possible_keys h, implementsExact := C07_relations_implements h }
+
+/-- the former counterexample (`input Query { foo: String }`) now has exact relations (kernel-checked) -/
+theorem C07_relations_exact_former_counterexample :
+    ∃ s, load Examples.inputQueryDoc = .ok s ∧ Spec.RelationsExact s := by
+  cases h : load Examples.inputQueryDoc with
+  | ok s => exact ⟨s, rfl, C07_relations_exact h⟩
+  | err e => have : (load Examples.inputQueryDoc).isOk = true := by decide
+             rw [h] at this; simp [LoadResult.isOk] at this
+  | panic => have : (load Examples.inputQueryDoc).isOk = true := by decide
+             rw [h] at this; simp [LoadResult.isOk] at this
 
 /- ------------------------------------------------------------------ introspection fields, built-ins -/
 
@@ -397,35 +427,83 @@ theorem C07_prelude_present {sd : SchemaDoc} {s : Schema} (h : load sd = .ok s) 
 /- ------------------------------------------------------------------ load vs WellFormed -/
 
 /-
-  Full statement (FALSE for the code as it is, in the ⇒ direction):
+  Full statement (FALSE for the code as it is, in the ⇒ direction; `C07_load_sound` is that direction
+  under the hypothesis that excludes the remaining witness; the ⇐ direction is judged by exploration):
     theorem C07_load_iff_wellformed (sd) : (load sd).isOk = true ↔ Spec.WellFormed sd
-  Witnesses: R7c (`enum E { __A }` loads), R7a (`f(a: String)` implementing `f(a: String!)` loads), and
-  R7b (redeclared directives, see C17_directive_perm_counterexample).
+  Remaining witness: R7b (a builtin directive redeclared more than once is accepted and the last
+  declaration wins, see C17_directive_perm_counterexample).  The former witnesses R7c (`enum E { __A }`)
+  and R7a (`f(a: String)` implementing `f(a: String!)`) are rejected since the repair: the two theorems
+  below replace the former `…_counterexample_enumValue` / `…_counterexample_argType`.
 -/
 
-/-- R7c, kernel-checked: an enum value named `__A` is accepted -/
-theorem C07_load_iff_wellformed_counterexample_enumValue :
-    (load Examples.r7cDoc).isOk = true ∧ Spec.enumValueNamesNotReserved (.ofDoc Examples.r7cDoc) = false ∧
-    ¬ Spec.WellFormed Examples.r7cDoc := by
-  refine ⟨by decide, by decide, fun h => absurd h.enumValueNamesNotReserved (by decide)⟩
+/-- R7c repaired, kernel-checked: an enum value named `__A` is rejected (the spec clause rejects it too) -/
+theorem C07_load_enumValue_reserved_rejected :
+    (load Examples.r7cDoc).isOk = false ∧ Spec.enumValueNamesNotReserved (.ofDoc Examples.r7cDoc) = false := by
+  refine ⟨by decide, by decide⟩
 
-/-- R7a, kernel-checked: an implementing field may weaken a non-null argument -/
-theorem C07_load_iff_wellformed_counterexample_argType :
-    (load Examples.r7aDoc).isOk = true ∧ Spec.implementsFieldsOK (.ofDoc Examples.r7aDoc) = false ∧
-    ¬ Spec.WellFormed Examples.r7aDoc := by
-  refine ⟨by decide, by decide, fun h => absurd h.implementsFieldsOK (by decide)⟩
+/-- R7a repaired, kernel-checked: an implementing field may no longer weaken a non-null argument -/
+theorem C07_load_argType_weakened_rejected :
+    (load Examples.r7aDoc).isOk = false ∧ Spec.implementsFieldsOK (.ofDoc Examples.r7aDoc) = false := by
+  refine ⟨by decide, by decide⟩
+
+/-- R7b, kernel-checked: `directive @skip on FIELD  directive @skip on OBJECT` loads although the
+    directive names are not unique — the ⇒ direction of the iff still fails on this clause -/
+theorem C07_load_iff_wellformed_counterexample_directive :
+    (load Examples.skipFO).isOk = true ∧ Spec.uniqueDirectiveNames Examples.skipFO = false ∧
+    ¬ Spec.WellFormed Examples.skipFO := by
+  refine ⟨by decide, by decide, fun h => absurd h.uniqueDirectiveNames (by decide)⟩
 
 /-- **soundness, partial** (the ⇒ direction for the type-structure clauses): a document the loader
     accepts has unique type names, unique field names per merged type, resolving and correctly
     positioned field types, interfaces that are interfaces, union members that are objects, existing
-    roots, transitively declared interfaces, no empty object/interface/input/enum, no reserved type or
-    field names, at most one `schema` block, extensions of the base's kind, and no enum value named
-    `true`/`false`/`null`.  (`hext`: extensions are not `builtIn` — the prelude has none.)
-    Not covered by a theorem: the directive clauses and `implementsFieldsOK` (judged by exploration),
-    and the two clauses the code violates (`enumValueNamesNotReserved`, `uniqueDirectiveNames`). -/
+    roots, transitively declared interfaces, no empty object/interface/input/enum, no reserved type,
+    field or ENUM VALUE names, at most one `schema` block, every root operation type given at most ONCE,
+    extensions of the base's kind, and no enum value named `true`/`false`/`null`.
+    (`hext`: extensions are not `builtIn` — the prelude has none.)
+    `implementsFieldsOK` is `C07_load_sound_implementsFields`, the directive clauses are
+    `C07_load_sound_directives`, all 26 clauses together `C07_load_sound` (below). -/
 theorem C07_load_sound_partial {sd : SchemaDoc} {s : Schema} (h : load sd = .ok s)
     (hext : ∀ e ∈ sd.extensions, e.builtIn = false) : SoundClauses sd :=
   load_sound h hext
+
+/-- **soundness for `implementsFieldsOK`** (the remaining type-structure clause): in a document the
+    loader accepts, every implementer provides every field of its interfaces at a covariant type
+    (`Spec.covariant`, the specification's IsValidImplementationFieldType, read off the DEFINITIONS —
+    the loader decides it from `PossibleTypes`), takes every argument of the interface field at the
+    IDENTICAL type, and adds no required argument.  `NamesLexical`: what the lexer guarantees — no
+    empty definition name, no `!`/`[`/`]` inside a name of a field or argument type (`Type.String()`,
+    which the repaired loader compares, is injective only on such names). -/
+theorem C07_load_sound_implementsFields {sd : SchemaDoc} {s : Schema} (h : load sd = .ok s)
+    (hext : ∀ e ∈ sd.extensions, e.builtIn = false) (hlex : NamesLexical sd) :
+    Spec.implementsFieldsOK (.ofDoc sd) = true :=
+  load_implementsFieldsOK h hext hlex
+
+/-- non-vacuity: a document with interface implementations (one covariant through a union) that
+    satisfies the hypotheses and loads -/
+example : NamesLexical Examples.implOkDoc ∧ (load Examples.implOkDoc).isOk = true ∧
+    Spec.implementsFieldsOK (.ofDoc Examples.implOkDoc) = true := ⟨by decide, by decide, by decide⟩
+
+/-- **C07_load_sound — the ⇒ direction of "loads iff well formed"**, for documents in which no
+    directive name is declared twice: every document the loader accepts satisfies EVERY clause of
+    `Spec.WellFormed` (all 26).  The hypothesis `DirectiveNamesDistinct` cannot be dropped: a builtin
+    directive redeclared more than once is accepted with the last declaration in force (finding R7b,
+    `C07_load_iff_wellformed_counterexample_directive`), and the clauses then read another definition
+    than the loader.  (`hext`, `NamesLexical`: guarantees of the prelude and of the lexer.) -/
+theorem C07_load_sound {sd : SchemaDoc} {s : Schema} (h : load sd = .ok s)
+    (hext : ∀ e ∈ sd.extensions, e.builtIn = false) (hlex : NamesLexical sd) (hd : DirectiveNamesDistinct sd) :
+    Spec.WellFormed sd :=
+  load_wellFormed h hext hlex hd
+
+/-- the directive clauses alone (no `NamesLexical`) -/
+theorem C07_load_sound_directives {sd : SchemaDoc} {s : Schema} (h : load sd = .ok s)
+    (hext : ∀ e ∈ sd.extensions, e.builtIn = false) (hd : DirectiveNamesDistinct sd) : DirectiveClauses sd :=
+  load_directive_clauses h hext hd
+
+/-- non-vacuity: a document that declares and applies a directive (on a type and on an argument),
+    satisfies the hypotheses and loads -/
+example : NamesLexical Examples.dirOkDoc ∧ DirectiveNamesDistinct Examples.dirOkDoc ∧
+    (load Examples.dirOkDoc).isOk = true ∧ (Spec.TypeSystem.ofDoc Examples.dirOkDoc).directiveUses.length = 2 :=
+  ⟨by decide, by decide, by decide, by decide⟩
 
 /-- non-vacuity of the spec: the small valid document is well formed and loads -/
 example : Spec.WellFormed Examples.okDoc ∧ (load Examples.okDoc).isOk = true := ⟨by decide, by decide⟩
